@@ -82,7 +82,21 @@ def sortBy {α} (lt : α → α → Bool) (l : List α) : List α := l.foldr (in
 def channelListSorter (chs : List Chan) : List Chan :=
   let ints := chs.filterMap (fun c => match c with | .int n => some n | _ => none)
   let strs := chs.filterMap (fun c => match c with | .str s => some s | _ => none)
-  (sortBy (fun a b => decide (a < b)) ints).map Chan.int ++ (sortBy (fun a b => decide (a < b)) strs).map Chan.str
+  (sortBy (fun a b => decide (a ≤ b)) ints).map Chan.int ++ (sortBy (fun a b => decide (a ≤ b)) strs).map Chan.str
+
+/-- positions 1..N all filled, in whatever order they were added (an empty store counts as [1]) -/
+def oneTo (n : Nat) : List Int := (List.range n).map (fun (i : Nat) => (i : Int) + 1)
+
+def gapFree (keys : List Int) : Bool :=
+  let positions := sortBy (fun a b => decide (a ≤ b)) keys
+  let positions := if positions.isEmpty then [1] else positions
+  positions == oneTo positions.length
+
+/-- all entries of a list equal its last entry -/
+def allEqLast {α} [DecidableEq α] (l : List α) : Bool :=
+  match l.getLast? with
+  | some last => l.all (· = last)
+  | none => true
 
 namespace SeqCore
 variable {E : Type}
@@ -147,17 +161,14 @@ end SeqCore
 namespace SubSeq
 
 /-- `checkConsistency` of a sequence holding elements only -/
-def checkConsistency (s : SubSeq) : Except Err Bool := do
-  if !(Dict.has s.awgspecs "SR") then throw .key
-  let srs ← (Dict.vals s.data).mapM (fun e => e.getSR)
-  if !Element.allSame srs then return false
-  let chans := (Dict.vals s.data).map (fun e => channelListSorter e.channels)
-  match chans.getLast? with
-  | some last => if chans.any (· ≠ last) then return false
-  | none => pure ()
-  let positions := sortBy (fun a b => decide (a < b)) (Dict.keys s.data)
-  let positions := if positions.isEmpty then [1] else positions
-  return positions == (List.range positions.length).map (fun (i : Nat) => (i : Int) + 1)
+def checkConsistency (s : SubSeq) : Except Err Bool :=
+  if !(Dict.has s.awgspecs "SR") then .error .key else
+  match (Dict.vals s.data).mapM (fun e => e.getSR) with
+  | .error er => .error er
+  | .ok srs =>
+    if !Element.allSame srs then .ok false
+    else if !allEqLast ((Dict.vals s.data).map (fun e => channelListSorter e.channels)) then .ok false
+    else .ok (gapFree (Dict.keys s.data))
 
 def channels (s : SubSeq) : Except Err (List Chan) := do
   if !(← s.checkConsistency) then throw .consistency
@@ -226,17 +237,17 @@ def addSubSequence (s : Sequence) (pos : Int) (sub : Sequence) : Res Sequence :=
                 sequencing := Dict.upsert s.sequencing pos defaultSeqSub }, none⟩
 
 /-- `Sequence.checkConsistency()`; raises KeyError without a sample rate -/
-def checkConsistency (s : Sequence) : Except Err Bool := do
-  if !(Dict.has s.awgspecs "SR") then throw .key
-  let srs ← (Dict.vals s.data).mapM Entry.getSR
-  if !Element.allSame srs then return false
-  let chans ← (Dict.vals s.data).mapM (fun en => do pure (channelListSorter (← en.channels)))
-  match chans.getLast? with
-  | some last => if chans.any (· ≠ last) then return false
-  | none => pure ()
-  let positions := sortBy (fun a b => decide (a < b)) (Dict.keys s.data)
-  let positions := if positions.isEmpty then [1] else positions
-  return positions == (List.range positions.length).map (fun (i : Nat) => (i : Int) + 1)
+def checkConsistency (s : Sequence) : Except Err Bool :=
+  if !(Dict.has s.awgspecs "SR") then .error .key else
+  match (Dict.vals s.data).mapM Entry.getSR with
+  | .error er => .error er
+  | .ok srs =>
+    if !Element.allSame srs then .ok false else
+    match (Dict.vals s.data).mapM Entry.channels with
+    | .error er => .error er
+    | .ok chans =>
+      if !allEqLast (chans.map channelListSorter) then .ok false
+      else .ok (gapFree (Dict.keys s.data))
 
 /-- `Sequence.channels` -/
 def channels (s : Sequence) : Except Err (List Chan) := do
@@ -380,15 +391,15 @@ def prepareForOutputting (s : Sequence) : Except Err (List (Dict Chan ChOutF)) :
     | some en => en.channels
     | none => throw Err.key
   let seqlen := s.data.length
-  let skeys := sortBy (fun a b => decide (a < b)) (Dict.keys s.sequencing)
-  if skeys ≠ (List.range seqlen).map (fun (i : Nat) => (i : Int) + 1) then throw .value
+  let skeys := sortBy (fun a b => decide (a ≤ b)) (Dict.keys s.sequencing)
+  if skeys ≠ oneTo seqlen then throw .value
   for ch in chans do
     if !(Dict.has s.awgspecs (keyOf ch "amplitude")) then throw .key
   let delays ← chans.mapM s.delayOf
   let els ← (List.range seqlen).mapM (fun (i : Nat) => do
     match Dict.get? s.data ((i + 1 : Nat) : Int) with
     | some (.el e) => prepDelayElement s.getSR e chans delays
-    | some (.sub _) => throw Err.attr     -- a subsequence has no channel store
+    | some (.sub _) => throw Err.key      -- a subsequence has no channel store (KeyError / AttributeError)
     | none => throw Err.key)
   let forged ← els.mapM (fun (e : Element) => e.getArrays false)
   -- filters, looked up for the channels of element(1)
@@ -471,6 +482,38 @@ def lookupCh (d : Dict Chan ChOutF) (ch : Chan) : Except Err ChOutF :=
 def transpose {α} (nCh : Nat) (rows : List (List α)) : List (List α) :=
   (List.range nCh).map (fun i => rows.filterMap (fun r => r[i]?))
 
+/-- the AWG5014 sequencing checks of one position, in source order -/
+def awgSeqCheck (q : SeqSet) (seqlen : Int) : Except Err Unit :=
+  if Gen.awgTwaitBad q.twait then .error .sequencing
+  else if Gen.awgNrepBad q.nrep then .error .sequencing
+  else if Gen.awgJumpBad q.jump_target seqlen then .error .sequencing
+  else if Gen.awgGotoBad q.goto seqlen then .error .sequencing
+  else .ok ()
+
+/-- the AWG5014 voltage check of one waveform -/
+def awgRangeCheck (xs : List Rat) (ampl off : Rat) : Except Err Unit :=
+  if Gen.awgMaxBad (maxR xs) ampl off then .error .value
+  else if Gen.awgMinBad (minR xs) ampl off then .error .value
+  else .ok ()
+
+/-- the AWG70000A sequencing checks of one position, in source order -/
+def seqxSeqCheck (q : SeqSet) (seqlen : Int) : Except Err Unit :=
+  if Gen.seqxTwaitBad q.twait then .error .sequencing
+  else if Gen.seqxJumpStateBad q.jump_input then .error .sequencing
+  else if Gen.seqxNrepBad q.nrep then .error .sequencing
+  else if Gen.seqxJumpBad q.jump_target seqlen then .error .sequencing
+  else if Gen.seqxGotoBad q.goto seqlen then .error .sequencing
+  else .ok ()
+
+/-- the AWG70000A voltage check of one waveform -/
+def seqxRangeCheck (xs : List Rat) (ampl : Rat) : Except Err Unit :=
+  if Gen.seqxMaxBad (maxR xs) ampl then .error .value
+  else if Gen.seqxMinBad (minR xs) ampl then .error .value
+  else .ok ()
+
+/-- `amplitudes` of the SEQX package: one 0 appended for a single channel -/
+def padAmplitudes (amps : List Rat) : List Rat := if amps.length = 1 then amps ++ [0] else amps
+
 /-- `Sequence.outputForAWGFile()` -/
 def outputForAWGFile (s : Sequence) : Except Err (Deferred AWGPkg) := do
   let elements ← s.prepareForOutputting
@@ -494,8 +537,7 @@ def outputForAWGFile (s : Sequence) : Except Err (Deferred AWGPkg) := do
       match w.eval? with
       | some xs =>
         -- every voltage failure is a ValueError, so a decidable one can be raised at once
-        if Gen.awgMaxBad (maxR xs) ampl off then throw Err.value
-        if Gen.awgMinBad (minR xs) ampl off then throw Err.value
+        awgRangeCheck xs ampl off
       | none => obs := obs ++ [⟨pos, ch, w, -ampl / 2 + off, ampl / 2 + off⟩]
       row := row ++ [{ w with resc := some (ampl, off) }]
     rows := rows ++ [row]
@@ -515,10 +557,7 @@ def outputForAWGFile (s : Sequence) : Except Err (Deferred AWGPkg) := do
         let m1 ← chans.mapM (fun ch => do chMarker (← lookupCh el ch) 1)
         let m2 ← chans.mapM (fun ch => do chMarker (← lookupCh el ch) 2)
         let q ← match Dict.get? s.sequencing (pos : Int) with | some q => pure q | none => throw Err.key
-        if Gen.awgTwaitBad q.twait then throw Err.sequencing
-        if Gen.awgNrepBad q.nrep then throw Err.sequencing
-        if Gen.awgJumpBad q.jump_target seqlen then throw Err.sequencing
-        if Gen.awgGotoBad q.goto seqlen then throw Err.sequencing
+        awgSeqCheck q seqlen
         pure (m1, m2, q)
       match r with
       | .error er => late := some er
@@ -578,7 +617,7 @@ def outputForSEQXFile (s : Sequence) : Except Err (Deferred SEQXPkg) := do
     | none => throw Err.key
   let amps ← chans.mapM (fun ch =>
     match s.specNum (keyOf ch "amplitude") with | some q => pure q | none => throw Err.type)
-  let amplitudes := if amps.length = 1 then amps ++ [0] else amps
+  let amplitudes := padAmplitudes amps
   let mut obs : List RangeOb := []
   let mut pos : Nat := 0
   for el in elements do
@@ -589,8 +628,7 @@ def outputForSEQXFile (s : Sequence) : Except Err (Deferred SEQXPkg) := do
       if Gen.seqxLenBad w.len then throw Err.value
       match w.eval? with
       | some xs =>
-        if Gen.seqxMaxBad (maxR xs) ampl then throw Err.value
-        if Gen.seqxMinBad (minR xs) ampl then throw Err.value
+        seqxRangeCheck xs ampl
       | none => obs := obs ++ [⟨pos, ch, w, -ampl / 2, ampl / 2⟩]
   let mut rows : List (List (Wave × List Rat × List Rat)) := []
   let mut tw : List Int := []
@@ -608,11 +646,7 @@ def outputForSEQXFile (s : Sequence) : Except Err (Deferred SEQXPkg) := do
           let c ← lookupCh el ch
           pure (← chWave c, ← chMarker c 1, ← chMarker c 2))
         let q ← match Dict.get? s.sequencing (pos : Int) with | some q => pure q | none => throw Err.key
-        if Gen.seqxTwaitBad q.twait then throw Err.sequencing
-        if Gen.seqxJumpStateBad q.jump_input then throw Err.sequencing
-        if Gen.seqxNrepBad q.nrep then throw Err.sequencing
-        if Gen.seqxJumpBad q.jump_target seqlen then throw Err.sequencing
-        if Gen.seqxGotoBad q.goto seqlen then throw Err.sequencing
+        seqxSeqCheck q seqlen
         pure (row, q)
       match r with
       | .error er => late := some er
